@@ -220,4 +220,18 @@ def r5_support(ctx):
             o["rule"] = "R5s"
 
 
-RULES = [("R1", r1_unsafe), ("R2", r2_typestate), ("R3", r3_marker), ("R4", r4_positions), ("R5", r5_panics), ("R5s", r5_support)]
+def r6_accessor_termination(ctx):
+    """NsReader iterates the attributes of every Start/Empty event inside its read call (NamespaceResolver::push), and
+    draining an event's attributes is how every consumer reads a tag: the attribute automaton must reach Done.  C11's
+    transition table (every end-of-input outcome leaves state Done, every other outcome moves the state forward) and
+    its stays-ended rule are re-evaluated here."""
+    import c11
+    n0 = len(ctx.obs)
+    c11.r1_table(ctx)
+    c11.r4_stays_ended(ctx)
+    for o in ctx.obs[n0:]:
+        o["site"] = "attributes:" + o["rule"] + ":" + o["site"]
+        o["rule"] = "R6"
+
+
+RULES = [("R1", r1_unsafe), ("R2", r2_typestate), ("R3", r3_marker), ("R4", r4_positions), ("R5", r5_panics), ("R5s", r5_support), ("R6", r6_accessor_termination)]
